@@ -91,6 +91,27 @@ def body_inert(t, ruleset, scheme, policy):
     return len(t) >= 1
 
 
+MOD_POL = ['keep', 'replace', 'ignore', 'unihex', 'fail']
+
+
+def body_modfn(t, k1, k2):
+    """module-level latexencode.unicode_to_latex(): a call with one policy followed by a call with another"""
+    import pylatexenc.latexencode as LE
+    install_stubs()
+    for k in (k1, k2):
+        pol = MOD_POL[k]
+        unknown = any((ord(c) not in TABLES['defaults']) and not in_passthrough(ord(c)) for c in t)
+        try:
+            out = LE.unicode_to_latex(t, unknown_char_policy=pol, unknown_char_warning=False)
+        except ValueError:
+            require(pol == 'fail' and unknown, 'module-level unicode_to_latex raised ValueError unexpectedly')
+            continue
+        require(not (pol == 'fail' and unknown), 'module-level unicode_to_latex did not raise under fail')
+        if pol in ('replace', 'ignore', 'unihex'):
+            require(all(ord(c) < 128 for c in out), 'module-level unicode_to_latex output is not ASCII under policy %s' % pol)
+    return True
+
+
 def set_pre(n, chars, var='t'):
     return ['len(%s) == %d' % (var, n)] + ['any(%s[%d] == c for c in %r)' % (var, i, chars) for i in range(n)]
 
@@ -140,6 +161,10 @@ def conditions(tier):
                               pre, 'body_inert(t, %r, %r, %r)' % (rs, sc, pol), timeout=T, cost=3, twin=False,
                               smoke=[dict(t=sk.replace('?', c)) for c in ('\xe9', '\x7f', '\U0001d400', '\u03ac', '\x01', '\ufffe')
                                      if lo <= ord(c) < hi]))
+    for i, t in enumerate(['\u0416x', '\x01', '\xe9\U0001d7ffb']):
+        conds.append(Cond('modfn_%d' % i, 'k1: int, k2: int', ['0 <= k1 < 5', '0 <= k2 < 5'], 'body_modfn(%r, k1, k2)' % t,
+                          timeout=T, twin=False, smoke=[dict(k1=0, k2=1), dict(k1=4, k2=0)],
+                          descr='module-level helper, all ordered pairs of the 5 policies, input %r' % t))
     # unihex: hex formatting realises the code point; small ranges incl. control, combining, astral, unassigned
     for rs in ('defaults',) if quick else ('defaults', 'unicode-xml'):
         for lo, hi in ((0, 32), (127, 140), (0x300, 0x308), (0x1d400, 0x1d404), (0xfffe, 0x10001)):
